@@ -85,7 +85,8 @@ class SystemProblem:
         elif wmode == "dict":
             self.W = {t: ({e: float(np.round(rng.uniform(0.4, 2.5), 3)) for e in self.eqnames} if t == "dyn"
                           else {n: float(np.round(rng.uniform(0.4, 2.5), 3)) for n in self.names}) for t in T}
-            self.Wspec = self.W
+            # the user may write a weight dictionary in any key order: hand them over in a permuted insertion order
+            self.Wspec = {t: {k: v[k] for k in [list(v)[i] for i in rng.permutation(len(v))]} for t, v in self.W.items()}
         else:  # class default: PDE 1.0 everywhere; ODE None (only dyn given)
             d1 = 1.0 if kind != "ode" else None
             base = {t: d1 for t in T}
